@@ -32,6 +32,7 @@ verus! {
 //@include spec/api.rs
 //@include spec/names.rs
 //@include spec/plain.rs
+//@include spec/grammar_view.rs
 //@include spec/indep.rs
 //@include spec/subst.rs
 //@include spec/rewrites.rs
